@@ -1,13 +1,13 @@
 #!/usr/bin/env python3
 """Print the markdown table of /verif/seeded/*/meta.json (used for DESIGN.md section 9)."""
 import json, glob, os
-print("| seed | property | change (short) | applies to HEAD | caught by (violations) | missed by |")
+print("| seed | property | change (short) | applies to HEAD | caught by (violations) | also run, silent |")
 print("|------|----------|----------------|-----------------|------------------------|-----------|")
 for f in sorted(glob.glob('/verif/seeded/*/meta.json')):
     m = json.load(open(f))
     c = m.get('confirmed_by_me', {})
     s = (m.get('summary') or '').replace('\n', ' ').replace('|', '/')
-    s = s[:150] + ('…' if len(s) > 150 else '')
+    s = s[:110] + ('…' if len(s) > 110 else '')
     ch = m.get('checks', {})
     caught = ', '.join('%s (%d)' % (p, r['violations']) for p, r in sorted(ch.items()) if r['exit'] == 1 and r['violations'] > 0) or '—'
     missed = ', '.join(p for p, r in sorted(ch.items()) if not (r['exit'] == 1 and r['violations'] > 0)) or '—'
